@@ -361,15 +361,14 @@ func (m *ldbManager) Add(transaction Transaction) error {
 	frontierIdentifier := GetFrontierIdentifier(db)
 
 	if previous == frontierIdentifier {
-		if err := m.ldb.Put(common.JoinBytes(patchByte, common.Uint64ToBytes(identifier.Height)), patch.Dump(), nil); err != nil {
+		// the redo record, the undo record and every key of the commit reach the store in one atomic write
+		batch := newLdbBatch(m.ldb)
+		if err := ApplyPatch(batch.View().Subset(frontierByte), patch); err != nil {
 			return err
 		}
-		if err := m.ldb.Put(common.JoinBytes(rollbackByte, common.Uint64ToBytes(identifier.Height)), rollbackPatch.Dump(), nil); err != nil {
-			return err
-		}
-		if err := ApplyPatch(NewLevelDBWrapper(m.ldb).Subset(frontierByte), patch); err != nil {
-			return err
-		}
+		batch.batch.Put(common.JoinBytes(patchByte, common.Uint64ToBytes(identifier.Height)), patch.Dump())
+		batch.batch.Put(common.JoinBytes(rollbackByte, common.Uint64ToBytes(identifier.Height)), rollbackPatch.Dump())
+		return m.ldb.Write(batch.batch, nil)
 	}
 	return nil
 }
@@ -377,13 +376,14 @@ func (m *ldbManager) Pop() error {
 	frontierIdentifier := GetFrontierIdentifier(m.Frontier())
 	rollbackPatch := m.getRollback(frontierIdentifier.Height)
 
-	if err := ApplyPatch(NewLevelDBWrapper(m.ldb).Subset(frontierByte), rollbackPatch); err != nil {
+	// every key restored by the rollback and the removal of the two records reach the store in one atomic write
+	batch := newLdbBatch(m.ldb)
+	if err := ApplyPatch(batch.View().Subset(frontierByte), rollbackPatch); err != nil {
 		return err
 	}
-	if err := m.ldb.Delete(common.JoinBytes(patchByte, common.Uint64ToBytes(frontierIdentifier.Height)), nil); err != nil {
-		return err
-	}
-	if err := m.ldb.Delete(common.JoinBytes(rollbackByte, common.Uint64ToBytes(frontierIdentifier.Height)), nil); err != nil {
+	batch.batch.Delete(common.JoinBytes(patchByte, common.Uint64ToBytes(frontierIdentifier.Height)))
+	batch.batch.Delete(common.JoinBytes(rollbackByte, common.Uint64ToBytes(frontierIdentifier.Height)))
+	if err := m.ldb.Write(batch.batch, nil); err != nil {
 		return err
 	}
 
